@@ -8,9 +8,9 @@ import "github.com/ipfs/go-unixfsnode/verifrt"
 // overlay of the module under test (verifrt seams available).
 const overlayActive = true
 
-func setMapPerm(f func(n int, site string) []int)                { verifrt.Perm = f }
-func setFieldHook(f func(addr uintptr, kind int, site string))  { verifrt.Hook = f }
-func setSyncHook(f func(kind int, addr uintptr) int)             { verifrt.Sync = f }
+func setMapPerm(f func(n int, site string) []int)              { verifrt.Perm = f }
+func setFieldHook(f func(addr uintptr, kind int, site string)) { verifrt.Hook = f }
+func setSyncHook(f func(kind int, addr uintptr) int)           { verifrt.Sync = f }
 
 const (
 	evLock        = verifrt.EvLock
